@@ -446,9 +446,39 @@ where
         }
         match (real, expected) {
             (Err(_), None) => {
-                self.dead = true;
+                // the specified panic of a non-increasing push: a caller may catch it and keep using
+                // the deque, which must then be exactly what it was (the reference did not move).
+                // The first deque panicked before the second one was touched: run that one too.
                 so.obs.push("panic".into());
                 so.tags.push(format!("{}_push_panics_as_specified", V::NAME));
+                let second = catch_unwind(AssertUnwindSafe(|| apply_real::<SmallVec<[V::Item; 4]>, V>(&mut cur.s, op, digest)));
+                if second.is_ok() && cur.lawful {
+                    so.violations.push(format!("C16 {}/smallvec: `{}` pushes a key that is not strictly greater than the last item but did not panic", V::NAME, text));
+                }
+                let look = SOp::IsEmpty;
+                let after = catch_unwind(AssertUnwindSafe(|| {
+                    let a = apply_real::<Vec<V::Item>, V>(&mut cur.v, &look, digest);
+                    let b = apply_real::<SmallVec<[V::Item; 4]>, V>(&mut cur.s, &look, digest);
+                    (a, b)
+                }));
+                match (after, apply_ref::<V>(&mut cur.r, &look, digest)) {
+                    (Ok((a, b)), Some(e)) => {
+                        if cur.lawful && a != e {
+                            so.violations.push(format!("C16 {}/vec: after the caught panic of `{}` the deque is [{}] but the reference ordered map (unchanged) is [{}]", V::NAME, text, a, e));
+                        }
+                        if cur.lawful && b != e {
+                            so.violations.push(format!("C16 {}/smallvec: after the caught panic of `{}` the deque is [{}] but the reference ordered map (unchanged) is [{}]", V::NAME, text, b, e));
+                        }
+                        so.obs.push(a);
+                    }
+                    _ => {
+                        self.dead = true;
+                        so.obs.push("panic".into());
+                        if cur.lawful {
+                            so.violations.push(format!("C16 {}: reading the deque after the caught panic of `{}` panics", V::NAME, text));
+                        }
+                    }
+                }
             }
             (Err(_), Some(_)) => {
                 self.dead = true;
